@@ -19,7 +19,7 @@ RULE = ("seeds: envelopes from G chosen to contain every node type (signed with 
         "replaced by {unknown uint, negative, text, bytes, array}; (3) every array element / map entry deleted and "
         "duplicated; (4) every truncation b[:i]; (5) every head's length argument replaced by {len+-1, 2^16-1, 2^32-1, "
         "2^63, 2^64-1} in every width and by the indefinite marker; (6) every byte x {00, FF, ^01, ^80, next major type}; "
-        "(7) nesting families to depth 10^4. Oracle: the outcome of SuitEnvelopeTagged.from_cbor(b).to_obj() is a return, "
+        "(7) nesting families to depth 10^4. Oracle: the outcome of SuitEnvelopeTagged.from_cbor(b).to_obj() (and, for the structural fault classes, of the simplified envelope parser SuitEnvelopeTaggedSimplified) is a return, "
         "a ValueError (incl. CBORDecodeError) or a SUITError - anything else is a violation fingerprinted by exception "
         "type and raising function; per input CPU-time budget max(5 s, 2 ms/byte) and RSS growth ceiling 64 MiB + 256 x "
         "len. distinct = distinct mutated inputs (hash); non-trivial = the parser ran on the input and its outcome was classified")
@@ -183,10 +183,12 @@ def _alarm(signum, frame):
     raise _Timeout()
 
 
-def parse_outcome(b: bytes):
+def parse_outcome(b: bytes, simplified=False):
     """-> (class, fingerprint or None, text)"""
-    from suit_generator.suit.envelope import SuitEnvelopeTagged
+    from suit_generator.suit.envelope import SuitEnvelopeTagged, SuitEnvelopeTaggedSimplified
     from suit_generator.exceptions import SUITError
+    if simplified:
+        SuitEnvelopeTagged = SuitEnvelopeTaggedSimplified
     budget = max(5.0, 0.002 * len(b))
     rss0 = resource.getrusage(resource.RUSAGE_SELF).ru_maxrss
     t0 = time.process_time()
@@ -545,14 +547,15 @@ def run_faults(case, agg):
         if case.get("only") is not None and i != case["only"]:
             continue
         n += 1
-        cls, fp, text = parse_outcome(m)
-        if fp:
-            agg.viol(fp, f"seed {case['seed']}, {case['cls']}: {desc}: {text}", artefacts={"input": m.hex()[:4000]},
-                     case={**case, "only": i})
-        else:
-            agg.evaluations += 1
-            agg.outcomes[f"{cls}"] += 1
-            agg.keys.add(h8(m))
+        for simplified in ((False, True) if case["cls"] in ("node-replace", "key-replace", "delete-duplicate") else (False,)):
+            cls, fp, text = parse_outcome(m, simplified)
+            if fp:
+                agg.viol(fp + ("/simplified-parser" if simplified else ""), f"seed {case['seed']}, {case['cls']}{' (simplified envelope parser)' if simplified else ''}: {desc}: {text}",
+                         artefacts={"input": m.hex()[:4000]}, case={**case, "only": i})
+            else:
+                agg.evaluations += 1
+                agg.outcomes[f"{cls}{':simplified' if simplified else ''}"] += 1
+                agg.keys.add(h8(m, simplified))
     if case["part"] == 0 and n:
         agg.samples.append({"seed": case["seed"], "fault_class": case["cls"], "inputs_in_this_part": n})
 
